@@ -376,6 +376,19 @@ theorem blocks_of_conj (U : Matrix (Fin n) (Fin n) K) (W : Matrix (Fin l) (Fin l
   rw [Matrix.fromBlocks_conjTranspose, Matrix.fromBlocks_multiply, Matrix.fromBlocks_multiply]
   simp
 
+
+/-! ## band groups must be closed under the gauge's mixing -/
+
+/-- if the gauge change is block diagonal with respect to the split inner / outer (the group is closed under the
+    mixing), the trace over the group is invariant -/
+theorem group_trace_invariant_of_closed (U : Matrix (Fin n) (Fin n) K) (W : Matrix (Fin l) (Fin l) K) (hU : U * Uᴴ = 1)
+    (Xnn : Matrix (Fin n) (Fin n) K) (Xnl : Matrix (Fin n) (Fin l) K) (Xln : Matrix (Fin l) (Fin n) K)
+    (Xll : Matrix (Fin l) (Fin l) K) :
+    ((Matrix.fromBlocks U 0 0 W)ᴴ * Matrix.fromBlocks Xnn Xnl Xln Xll * Matrix.fromBlocks U 0 0 W).toBlocks₁₁.trace
+      = Xnn.trace := by
+  rw [blocks_of_conj, Matrix.toBlocks_fromBlocks₁₁]
+  exact trace_cj U Xnn hU
+
 end gauge
 
 /-! ## the degenerate groups of `Data_K.degen` and the random gauge -/
@@ -431,6 +444,18 @@ theorem transposed_last_factor_not_invariant :
     productTrace [0, 1] [r A, r B, r C] = productTrace [0, 1] [A, B, C] ∧
     productTraceLastT [0, 1] [r A, r B, r C] ≠ productTraceLastT [0, 1] [A, B, C] := by
   decide +kernel
+
+
+/-- …and the closedness is needed: a 4-fold degenerate subspace cut into the two pairs `{0,1}`, `{2,3}` (what a
+    fixed pairing `(0,1),(2,3),…` does to two touching Kramers pairs).  A unitary of the whole subspace (here the
+    exchange of states 1 and 2) leaves the trace over all four states unchanged but changes the trace over a pair. -/
+theorem pair_trace_not_invariant_in_quartet :
+    ∃ (U X : Matrix (Fin 4) (Fin 4) ℚ), U * Uᴴ = 1 ∧ (Uᴴ * X * U).trace = X.trace ∧
+      (Uᴴ * X * U) 0 0 + (Uᴴ * X * U) 1 1 ≠ X 0 0 + X 1 1 := by
+  refine ⟨!![1, 0, 0, 0; 0, 0, 1, 0; 0, 1, 0, 0; 0, 0, 0, 1], Matrix.diagonal ![1, 2, 3, 4], ?_, ?_, ?_⟩
+  · ext i j; fin_cases i <;> fin_cases j <;> simp [Matrix.mul_apply, Fin.sum_univ_four]
+  · simp [Matrix.trace, Matrix.mul_apply, Fin.sum_univ_four, Matrix.diagonal]; norm_num
+  · simp [Matrix.mul_apply, Fin.sum_univ_four, Matrix.diagonal]
 
 /-- the driver's degenerate-group finder on a concrete spectrum: a doublet and a triplet are found, singles are not -/
 example : degenGroups (WB.C15.ofList [0, 1, 1, 2, 3, 3, 3]) (1/10000) 7 = [(1, 3), (4, 7)] := by decide +kernel
